@@ -27,6 +27,7 @@ import (
 	"github.com/ccbrown/api-fu/graphql"
 	"github.com/ccbrown/api-fu/graphql/ast"
 	"github.com/ccbrown/api-fu/graphql/parser"
+	"github.com/ccbrown/api-fu/graphql/validator"
 
 	"verifharness/internal/hx"
 	"verifharness/internal/rng"
@@ -1135,10 +1136,30 @@ func tableSexp() sexp.Node {
 	return sexp.L(t...)
 }
 
-// validate runs ParseAndValidate with the cost rule; returns the number of errors and the reported cost
-func validate(query, opName string, vars map[string]interface{}, max int, dc graphql.FieldCost) (nerrs int, actual int) {
+// stdErrors is the number of errors the standard validation rules alone report (0 = the document is valid)
+func stdErrors(query string) int {
+	_, errs := graphql.ParseAndValidate(query, directSchema, nil)
+	return len(errs)
+}
+
+// validate runs the cost rule and returns the number of errors and the reported cost.  For a
+// document the standard rules accept this is graphql.ParseAndValidate with the rule as an
+// additional rule (the route applications use).  ValidateDocument runs additional rules only on
+// documents the standard rules accept, so for an invalid document (std > 0: outside the property's
+// quantifier, kept for the tie between model and code) the rule is applied to the parsed document
+// directly, as validator.ValidateDocument applied it before it was given that guard.
+func validate(query, opName string, vars map[string]interface{}, max int, dc graphql.FieldCost, std int) (nerrs int, actual int) {
 	actual = unsetMark
-	_, errs := graphql.ParseAndValidate(query, directSchema, nil, graphql.ValidateCost(opName, vars, max, &actual, dc))
+	rule := graphql.ValidateCost(opName, vars, max, &actual, dc)
+	if std > 0 {
+		doc, perrs := parser.ParseDocument([]byte(query))
+		if len(perrs) > 0 || doc == nil {
+			return std, actual
+		}
+		errs := rule(doc, directSchema, nil, validator.NewTypeInfo(doc, directSchema, nil))
+		return len(errs), actual
+	}
+	_, errs := graphql.ParseAndValidate(query, directSchema, nil, rule)
 	if debug && max == -1 {
 		for _, e := range errs {
 			fmt.Fprintln(os.Stderr, "DEBUG", e.Message)
@@ -1169,22 +1190,24 @@ func directCase(d *doc, opName string, vars map[string]interface{}, dc graphql.F
 	assertShape(q, d.opsSexp(), d.fragsSexp())
 	var observed sexp.Node
 	max := -1
+	std := 0
 	func() {
 		defer func() {
 			if e := recover(); e != nil {
 				observed = sexp.Sym("panic")
 			}
 		}()
-		e0, a0 := validate(q, opName, vars, -1, dc)
+		std = stdErrors(q)
+		e0, a0 := validate(q, opName, vars, -1, dc, std)
 		max = limit(a0)
-		e1, a1 := validate(q, opName, vars, max, dc)
+		e1, a1 := validate(q, opName, vars, max, dc, std)
 		observed = sexp.L(sexp.Int(e0), actualSexp(a0), sexp.Int(e1), actualSexp(a1))
 	}()
 	return sexp.T("case", sexp.T("route", sexp.Sym("direct")),
 		sexp.T("default", sexp.Int(dc.Resolver), sexp.Int(dc.Multiplier)),
 		sexp.T("table", tableSexp()), sexp.T("opname", sexp.Str(opName)), sexp.T("vars", varsSexp(vars)),
 		sexp.T("ops", d.opsSexp()), sexp.T("frags", d.fragsSexp()), sexp.T("max", zint(max)),
-		sexp.T("conns", sexp.L()), sexp.T("observed", observed), sexp.T("query", sexp.Str(q)))
+		sexp.T("conns", sexp.L()), sexp.T("observed", observed), sexp.T("std", sexp.Int(std)), sexp.T("query", sexp.Str(q)))
 }
 
 var defaultCosts = []graphql.FieldCost{{Resolver: 1}, {Resolver: 1}, {}, {Resolver: 2, Multiplier: 2}, {Resolver: 0, Multiplier: 1 << 31}, {Resolver: maxInt}}
